@@ -142,19 +142,39 @@ def module_int_constants(repo: Repo):
 
 
 def module_set(mi, consts, name):
+    """value of a module-level set constant: a set literal of named constants / literals, or a |, &, - combination of such
+    sets (also through other module-level names), evaluated from the AST"""
+    def ev(node, depth=0):
+        if depth > 6:
+            raise Unsupported(f"{name}: set expression nested too deeply")
+        if isinstance(node, ast.Set):
+            out = set()
+            for e in node.elts:
+                if isinstance(e, ast.Name) and e.id in consts:
+                    out.add(consts[e.id])
+                else:
+                    try:
+                        out.add(ast.literal_eval(e))
+                    except Exception:
+                        raise Unsupported(f"element of {name} is not a named constant or literal")
+            return out
+        if isinstance(node, ast.Name) and node.id in mi.constants:
+            return ev(mi.constants[node.id], depth + 1)
+        if isinstance(node, ast.BinOp) and isinstance(node.op, (ast.BitOr, ast.BitAnd, ast.Sub)):
+            a, b = ev(node.left, depth + 1), ev(node.right, depth + 1)
+            return a | b if isinstance(node.op, ast.BitOr) else (a & b if isinstance(node.op, ast.BitAnd) else a - b)
+        if isinstance(node, ast.Call) and isinstance(node.func, ast.Name) and node.func.id in ("set", "frozenset") and len(node.args) <= 1:
+            return ev(node.args[0], depth + 1) if node.args else set()
+        if isinstance(node, ast.Call) and isinstance(node.func, ast.Attribute) and node.func.attr == "union":
+            out = ev(node.func.value, depth + 1)
+            for x in node.args:
+                out = out | ev(x, depth + 1)
+            return out
+        raise Unsupported(f"{name} is not a set literal or a combination of set literals")
     node = mi.constants.get(name)
-    if not isinstance(node, ast.Set):
-        raise Unsupported(f"{name} is no longer a set literal")
-    out = set()
-    for e in node.elts:
-        if isinstance(e, ast.Name) and e.id in consts:
-            out.add(consts[e.id])
-        else:
-            try:
-                out.add(ast.literal_eval(e))
-            except Exception:
-                raise Unsupported(f"element of {name} is not a named constant or literal")
-    return out
+    if node is None:
+        raise Unsupported(f"{name} is no longer a module-level constant")
+    return ev(node)
 
 
 class C07(Check):
@@ -261,9 +281,14 @@ class C07(Check):
         codes = list(range(lo, hi + 1)) + [-1, 0, 1, 2 ** 31, -2 ** 63]
         n = 0
         for code in codes:
-            for name, model in (("is_retryable_error", {"code": code}),
-                                ("_process_response", {"error": {"code": code, "message": "m"}}),
-                                ("_process_response", {"error": {"code": code}})):
+            shapes = [("is_retryable_error", {"code": code}),
+                      ("_process_response", {"error": {"code": code, "message": "m"}}),
+                      ("_process_response", {"error": {"code": code}})]
+            if code % 97 == 0 or code in (-32603, -32602, -32000, 0):
+                # the optional `data` member of an error object may be any JSON value
+                shapes += [("_process_response", {"error": {"code": code, "message": "m", "data": dv}})
+                           for dv in ("text", "", ["a", 1], [], 7, 0, True, None, {"k": "v"}, {}, 1.5)]
+            for name, model in shapes:
                 n += 1
                 r = self.replay(name, model, None)
                 if r and r.get("reproduced"):
